@@ -501,6 +501,17 @@ func Run(p Prog) *History {
 						m.Metadata["empty"] = ""
 					}
 				}
+				// published messages often carry a context of their own (the Router publishes messages that carry the
+				// consuming handler's context; that context is usually over soon after Publish, or already): nothing of it
+				// may reach the deliveries
+				switch (pi + 2*c + i) % 4 {
+				case 1:
+					m.SetContext(context.WithValue(context.Background(), markerKey{}, "publisher's context of "+id))
+				case 2:
+					pctx, pcancel := context.WithCancel(context.WithValue(context.Background(), markerKey{}, "publisher's cancelled context of "+id))
+					pcancel()
+					m.SetContext(pctx)
+				}
 				pr.IDs = append(pr.IDs, id)
 				pr.Originals = append(pr.Originals, m)
 				pr.Snaps = append(pr.Snaps, lib.SnapOf(m))
